@@ -8,6 +8,35 @@ namespace CoseModel
 
 def maxInt64 : Nat := 9223372036854775807
 
+/-! ### UTF-8 validity (Go `utf8.Valid`) -/
+
+def utf8Valid : Bytes → Bool
+  | [] => true
+  | b0 :: r =>
+    let c := b0.toNat
+    if c < 0x80 then utf8Valid r
+    else if c < 0xC2 then false
+    else if c < 0xE0 then
+      match r with
+      | b1 :: r' => (0x80 ≤ b1.toNat && b1.toNat ≤ 0xBF) && utf8Valid r'
+      | _ => false
+    else if c < 0xF0 then
+      match r with
+      | b1 :: b2 :: r' =>
+        let lo := if c = 0xE0 then 0xA0 else 0x80
+        let hi := if c = 0xED then 0x9F else 0xBF
+        (lo ≤ b1.toNat && b1.toNat ≤ hi) && (0x80 ≤ b2.toNat && b2.toNat ≤ 0xBF) && utf8Valid r'
+      | _ => false
+    else if c < 0xF5 then
+      match r with
+      | b1 :: b2 :: b3 :: r' =>
+        let lo := if c = 0xF0 then 0x90 else 0x80
+        let hi := if c = 0xF4 then 0x8F else 0xBF
+        (lo ≤ b1.toNat && b1.toNat ≤ hi) && (0x80 ≤ b2.toNat && b2.toNat ≤ 0xBF)
+          && (0x80 ≤ b3.toNat && b3.toNat ≤ 0xBF) && utf8Valid r'
+      | _ => false
+    else false
+
 /-! ### type predicates (headers.go:636-675) -/
 
 def canInt : GoVal → Bool
@@ -18,8 +47,10 @@ def canUint : GoVal → Bool
   | .int k v => if k.signed then v ≥ 0 else true
   | _ => false
 
+/-- `canTstr` (headers.go:730): a Go string that is valid UTF-8 (the decoder refuses any
+    other text string) -/
 def canTstr : GoVal → Bool
-  | .str _ => true
+  | .str b => utf8Valid b
   | _ => false
 
 /-- a typed-nil `[]byte` is not a byte string: the encoder would emit `null` for it -/
@@ -27,16 +58,53 @@ def canBstr : GoVal → Bool
   | .bytes _ => true
   | _ => false
 
-/-- `normalizeLabel` (headers.go:677): every Go integer type is converted to `int64`
-    (an unsigned value ≥ 2^63 wraps), strings pass, anything else is refused. -/
+/-- the Go conversion `int64(v)` -/
 def wrap64 (v : Int) : Int :=
   let m := v % 18446744073709551616
   if m ≥ 9223372036854775808 then m - 18446744073709551616 else m
 
+/-- `uint` and `uint64`: the two Go integer types with values above `math.MaxInt64` -/
+def IntKind.wide (k : IntKind) : Bool := k = .u || k = .u64
+
+@[simp] theorem IntKind.wide_i : IntKind.wide .i = false := rfl
+@[simp] theorem IntKind.wide_i8 : IntKind.wide .i8 = false := rfl
+@[simp] theorem IntKind.wide_i16 : IntKind.wide .i16 = false := rfl
+@[simp] theorem IntKind.wide_i32 : IntKind.wide .i32 = false := rfl
+@[simp] theorem IntKind.wide_i64 : IntKind.wide .i64 = false := rfl
+@[simp] theorem IntKind.wide_u : IntKind.wide .u = true := rfl
+@[simp] theorem IntKind.wide_u8 : IntKind.wide .u8 = false := rfl
+@[simp] theorem IntKind.wide_u16 : IntKind.wide .u16 = false := rfl
+@[simp] theorem IntKind.wide_u32 : IntKind.wide .u32 = false := rfl
+@[simp] theorem IntKind.wide_u64 : IntKind.wide .u64 = true := rfl
+
+/-- `normalizeLabel` (headers.go:744): every Go integer type is converted to `int64` — a `uint`
+    / `uint64` above `math.MaxInt64` is refused (`return nil, false`), no other type has such
+    values —, strings pass, anything else is refused. -/
 def normalizeLabel : GoVal → Option GoVal
-  | .int _ v => some (.int .i64 (wrap64 v))
+  | .int k v => if k.wide && v > maxInt64 then none else some (.int .i64 (wrap64 v))
   | .str b => some (.str b)
   | _ => none
+
+theorem normalizeLabel_int_eq_some {k : IntKind} {v : Int} {n : GoVal}
+    (h : normalizeLabel (.int k v) = some n) : n = .int .i64 (wrap64 v) := by
+  simp only [normalizeLabel] at h
+  split at h
+  · cases h
+  · exact (Option.some.inj h).symm
+
+theorem normalizeLabel_int_of_le (k : IntKind) {v : Int} (hv : v ≤ maxInt64) :
+    normalizeLabel (.int k v) = some (.int .i64 (wrap64 v)) := by
+  have : ¬ v > (maxInt64 : Int) := by omega
+  simp [normalizeLabel, this]
+
+theorem normalizeLabel_int_of_narrow {k : IntKind} (hk : k.wide = false) (v : Int) :
+    normalizeLabel (.int k v) = some (.int .i64 (wrap64 v)) := by
+  simp [normalizeLabel, hk]
+
+theorem normalizeLabel_int_eq_none {k : IntKind} {v : Int} :
+    normalizeLabel (.int k v) = none ↔ k.wide = true ∧ v > maxInt64 := by
+  simp only [normalizeLabel]
+  split <;> simp_all
 
 /-- `lookupLabel` / `hasLabel`: the entry stored under `label`, whichever Go integer type
     spells the key (exact key first, else the first key that normalises to the same label). -/
@@ -68,7 +136,7 @@ def mediaTypeOK (v : Bytes) : Bool :=
 
 def tstrOrUintOK (value : GoVal) : Bool :=
   match value with
-  | .str v => mediaTypeOK v
+  | .str v => canTstr (.str v) && mediaTypeOK v   -- `isTstr := canTstr(value)`; a string is no uint
   | _ => canUint value
 
 /-- a countersignature parameter holds a non-nil `*Countersignature` or a non-empty list of
@@ -186,35 +254,6 @@ def setCWTClaims (h : GoMap) (claims : GoMap) : Out GoMap :=
     | some v => !canTstr v
     | none => false
   if bad 1 || bad 2 then .err .other else .ok (h.set (lbl 15) (.map claims))
-
-/-! ### UTF-8 validity (Go `utf8.Valid`) -/
-
-def utf8Valid : Bytes → Bool
-  | [] => true
-  | b0 :: r =>
-    let c := b0.toNat
-    if c < 0x80 then utf8Valid r
-    else if c < 0xC2 then false
-    else if c < 0xE0 then
-      match r with
-      | b1 :: r' => (0x80 ≤ b1.toNat && b1.toNat ≤ 0xBF) && utf8Valid r'
-      | _ => false
-    else if c < 0xF0 then
-      match r with
-      | b1 :: b2 :: r' =>
-        let lo := if c = 0xE0 then 0xA0 else 0x80
-        let hi := if c = 0xED then 0x9F else 0xBF
-        (lo ≤ b1.toNat && b1.toNat ≤ hi) && (0x80 ≤ b2.toNat && b2.toNat ≤ 0xBF) && utf8Valid r'
-      | _ => false
-    else if c < 0xF5 then
-      match r with
-      | b1 :: b2 :: b3 :: r' =>
-        let lo := if c = 0xF0 then 0x90 else 0x80
-        let hi := if c = 0xF4 then 0x8F else 0xBF
-        (lo ≤ b1.toNat && b1.toNat ≤ hi) && (0x80 ≤ b2.toNat && b2.toNat ≤ 0xBF)
-          && (0x80 ≤ b3.toNat && b3.toNat ≤ 0xBF) && utf8Valid r'
-      | _ => false
-    else false
 
 /-! ### generic decode (`decMode.Unmarshal(data, &v)` with `v any`) on an already
     well-formed item -/
